@@ -314,6 +314,12 @@ func runC14(c *sim.Ctx) *sim.Violation {
 			if typ >= 1 && typ <= 15 && typ != ref.PingReq && typ != ref.PingResp {
 				g := &gen.G{T: t}
 				o := c12Op(g, typ)
+				if o.Kind == "rewill" {
+					// a will may be shared between two CONNECTs of the pool (twins,
+					// cross-feed); changing it through its own setters would be the
+					// WORKLOAD disturbing a bystander, not the library. Attach a fresh one.
+					o.Kind = "will"
+				}
 				sim.Guard(func() { drv.Apply(e.p, o) })
 				touched = i
 				what = fmt.Sprintf("%s on #%d", o, i)
